@@ -334,7 +334,17 @@ fn varlink_to_rust(idl: &IDL, options: &GeneratorOptions, tosource: bool) -> Res
         let mut out_anot: Vec<TokenStream> = Vec::new();
 
         let call_name = Ident::new(&format!("Call_{}", t.name), Span::call_site());
-        let method_name = Ident::new(&to_snake_case(t.name), Span::call_site());
+        // `Type`, `Match`, ... turn into Rust keywords in snake case
+        let method_name = {
+            let snake = to_snake_case(t.name);
+            match syn::parse_str::<Ident>(&snake) {
+                Ok(ident) => ident,
+                Err(_) if ["self", "super", "crate"].contains(&snake.as_str()) => {
+                    Ident::new(&format!("{}_", snake), Span::call_site())
+                }
+                Err(_) => Ident::new_raw(&snake, Span::call_site()),
+            }
+        };
         let varlink_method_name = format!("{}.{}", idl.name, t.name);
 
         generate_anon_struct(
